@@ -140,6 +140,12 @@ pub struct Monitor {
     /// runaway stack growth across reads within one poll has been reported already.
     pub sp_base: Option<usize>,
     pub stack_growth_reported: bool,
+    /// Consecutive owner polls in which the sink was asked for readiness, said "not ready" and
+    /// never said anything else (busy-wait rule below).
+    pub saw_not_ready: bool,
+    pub saw_ready_result: bool,
+    pub not_ready_polls: u32,
+    pub busy_wait_reported: bool,
 }
 
 /// How much deeper than the first read of a poll a later read of the same poll may sit on the
@@ -148,6 +154,14 @@ pub struct Monitor {
 /// (a process abort, not even a panic).
 pub const STACK_GROWTH_LIMIT: usize = 192 * 1024;
 
+/// A component that was told "not ready" has to wait for the sink's wake-up. It may still be
+/// polled for other reasons (a new request, a reply, a timer, a cancellation), so some polls that
+/// find the sink still not ready are legal - but their number is bounded by the number of such
+/// events, a few per call. Thousands of such polls in a row, in a run whose executor polls a task
+/// only when its waker fired, mean the component keeps waking itself: it busy-waits through the
+/// executor instead of waiting to be woken (and, the simulated clock being frozen while anything
+/// is runnable, the stall it waits for can never end).
+pub const BUSY_WAIT_POLLS: u32 = 8_000;
 pub const SPIN_LIMIT: u32 = 64;
 pub const SPIN_PANIC: &str = "SIM_SPIN: transport polled not-ready more than 64 times in one poll";
 
@@ -162,9 +176,20 @@ impl Monitor {
     }
     pub fn on_ready(&mut self, res: Res, side: &str) {
         match res {
-            Res::Ok => self.token = true,
-            Res::Pending => self.note_not_ready(side),
-            Res::Err => self.failed = true,
+            Res::Ok => {
+                self.token = true;
+                self.saw_ready_result = true;
+                self.not_ready_polls = 0;
+            }
+            Res::Pending => {
+                self.saw_not_ready = true;
+                self.note_not_ready(side)
+            }
+            Res::Err => {
+                self.failed = true;
+                self.saw_ready_result = true;
+                self.not_ready_polls = 0;
+            }
             Res::Eof => {}
         }
     }
@@ -219,10 +244,23 @@ impl Monitor {
         self.not_ready_in_poll = 0;
         self.in_owner_poll = true;
         self.sp_base = None;
+        self.saw_not_ready = false;
+        self.saw_ready_result = false;
     }
     pub fn owner_poll_end(&mut self, side: &str, pending: bool) {
         self.in_owner_poll = false;
         self.not_ready_in_poll = 0;
+        if self.saw_not_ready && !self.saw_ready_result {
+            self.not_ready_polls += 1;
+            if self.not_ready_polls > BUSY_WAIT_POLLS && !self.busy_wait_reported {
+                self.busy_wait_reported = true;
+                self.v(
+                    "busy-wait",
+                    &[side],
+                    format!("{} polls in a row found the sink not ready: the component keeps itself runnable instead of waiting for the sink's wake-up", self.not_ready_polls),
+                );
+            }
+        }
         if pending && self.unflushed > 0 && !self.flush_pending && !self.failed && !self.closed && !self.read_failed {
             self.v(
                 "idle-unflushed",
